@@ -804,6 +804,21 @@ func main() {
 	}
 	fx.CheckOrder = sentinelOrder(ph)
 
+	// LoadBranch: where the rebuilt hash->height map starts (`height := <expr>`) and how it advances
+	if lb := hdrs.funcs["LoadBranch"]; lb != nil {
+		ast.Inspect(lb.Body, func(n ast.Node) bool {
+			if as, ok := n.(*ast.AssignStmt); ok && as.Tok == token.DEFINE && len(as.Lhs) == 1 && len(as.Rhs) == 1 {
+				if id, ok := as.Lhs[0].(*ast.Ident); ok && id.Name == "height" {
+					fx.Strs["loadBranchHeightStart"] = src(hdrs, as.Rhs[0])
+				}
+			}
+			return true
+		})
+	}
+	if _, ok := fx.Strs["loadBranchHeightStart"]; !ok {
+		miss("LoadBranch height start")
+	}
+
 	// main-file addressing of the height queries and of the range query: `file := <expr>` / `wantFile := <expr>` and
 	// `offset := <expr>` (every definition in the function, joined with `|`), and the range loop's stop test
 	for _, fa := range []struct{ fn, as, fileVar string }{
